@@ -356,12 +356,11 @@ namespace
   const char* KEY_SORTED_EMPTY = "graph.render *_sorted of an adjactor without adjacencies aborts (sort_indices asserts non-empty)";
   const char* KEY_COMPOSITE_ADJ = "composite-adjactor: first image node of a domain node has an empty second adjacency list";
   const char* KEY_CMK_MAXDEG = "cmk.maximum_degree root with a degree-0 node: no root found (abort)";
-  const char* KEY_ASIS_NULL = "graph.render as_is of an adjactor without adjacencies binds a reference to null (&_image_idx[0] on an empty vector; UBSan only, benign)";
   const char* KEY_CMK_MULTI = "cmk: several components, a non-last component ends with a level of >= 2 nodes (root of the next component overwrites a position)";
   const char* KEY_PERMUTE_IDX = "graph.permute_indices asserts num_indices == perm size instead of num_nodes_image";
   const char* KEY_EMPTY_PERM_INV = "permutation: in-place inverse apply of the empty permutation runs out of bounds";
 
-  struct Hazards { int sorted_empty, composite_adj, cmk_maxdeg, cmk_multi, permute_idx, empty_perm_inv, asis_null; };
+  struct Hazards { int sorted_empty, composite_adj, cmk_maxdeg, cmk_multi, permute_idx, empty_perm_inv; };
 
   // --------------------------------------------------------------------------------------------- part A
   void check_single(verif::Ctx& c, const Rel& r, const Hazards& hz)
@@ -379,9 +378,7 @@ namespace
     {
       const bool sorted_rt = (rt == RenderType::as_is_sorted || rt == RenderType::injectify_sorted);
       const Rel ref = ref_render(rt, r);
-      const bool asis_rt = (rt == RenderType::as_is || rt == RenderType::as_is_sorted);
       if(sorted_rt && nidx == 0 && hz.sorted_empty != 0) { c.excluded("sorted render of an adjactor without adjacencies (reported once as finding)"); }
-      else if(asis_rt && nidx == 0 && r.nd > 0 && hz.asis_null != 0) { c.excluded("as_is render of an adjactor without adjacencies under UBSan (reported once as finding)"); }
       else
       {
         Graph h(rt, g);
@@ -468,9 +465,7 @@ namespace
     {
       const bool sorted_rt = (rt == RenderType::as_is_sorted || rt == RenderType::injectify_sorted);
       const Rel ref = ref_render(rt, comp);
-      const bool asis_null = (rt == RenderType::as_is || rt == RenderType::as_is_sorted) && nidx == 0 && r1.nd > 0 && hz.asis_null != 0;
       if(sorted_rt && nidx == 0 && hz.sorted_empty != 0) c.excluded("sorted render of an adjactor without adjacencies (reported once as finding)");
-      else if(asis_null) c.excluded("as_is render of an adjactor without adjacencies under UBSan (reported once as finding)");
       else
       {
         Graph h(rt, g1, g2);
@@ -480,7 +475,7 @@ namespace
         c.count("composite_renders");
       }
       if(ca_hazard && hz.composite_adj != 0) c.excluded("CompositeAdjactor whose first image node has an empty second list (reported once as finding)");
-      else if(!(sorted_rt && nidx == 0 && hz.sorted_empty != 0) && !asis_null)
+      else if(!(sorted_rt && nidx == 0 && hz.sorted_empty != 0))
       {
         CompositeAdjactor<Graph, Graph> ca(g1, g2);
         Graph h(rt, ca);
@@ -607,7 +602,7 @@ int main(int argc, char** argv)
     "reference = list/set based definitions written in the harness (render types, composition, permutation as bijection y[i]=x[P(i)], level-structure Cuthill-McKee with stable degree sort)",
     "excluded (asserted preconditions): Permutation(n=0,...), CuthillMcKee on 0 nodes, explicit permute_indices() on a graph without indices, sort_indices() on a graph without domain pointer, composite render with mismatching inner dimensions, colouring arrays with colour gaps",
     "colouring is checked on symmetric relations only (the greedy algorithm looks at lower-numbered neighbours); self loops are allowed and ignored for properness",
-    "seven defect classes (one of them only visible under UBSan) are probed once in a forked child; if a probe fails it is reported under a stable key and the inputs of that class are counted as excluded"};
+    "six defect classes (all repaired in /repo meanwhile) are probed once in a forked child; if a probe fails it is reported under a stable key and the inputs of that class are counted as excluded"};
   spec.max_samples = 8;
 
   return verif::run(spec, argc, argv, [&](verif::Ctx& c) {
@@ -653,17 +648,6 @@ int main(int argc, char** argv)
       P.apply(x, true);
       return x[0] == 42; });
 
-    hz.asis_null = 0;
-#ifdef VERIF_ASAN
-    hz.asis_null = probe([]{
-      Rel r; r.nd = 1; r.ni = 1; r.l.assign(1, IV());
-      Graph g = make_graph(r, false);
-      Graph h(RenderType::as_is, g);
-      Graph h2(RenderType::as_is, g, g);
-      return h.get_num_nodes_domain() == 1 && h.get_num_indices() == 0 && h2.get_num_indices() == 0; });
-#endif
-    if(c.want()) { c.desc([]{ return std::string("probe (sanitizer build only): Graph(as_is, 1x1 graph without adjacencies)"); });
-      c.check(hz.asis_null == 0, KEY_ASIS_NULL, [&]{ return std::string(probe_txt(hz.asis_null)); }); }
     if(c.want()) { c.desc([]{ return std::string("probe: Graph(injectify_sorted, 1x1 graph without adjacencies)"); });
       c.check(hz.sorted_empty == 0, KEY_SORTED_EMPTY, [&]{ return std::string(probe_txt(hz.sorted_empty)); }); }
     if(c.want()) { c.desc([]{ return std::string("probe: CompositeAdjactor R1=1x2{[0,1]} R2=2x1{[] [0]} iterated through image_begin/image_end"); });
@@ -1055,8 +1039,6 @@ int main(int argc, char** argv)
           for(auto& pr : model) want.l[pr.first].push_back(pr.second);
           {
             Rel got;
-            if(model.empty() && hz.asis_null != 0) c.excluded("as_is render of an adjactor without adjacencies under UBSan (reported once as finding)");
-            else
             {
               Graph g(RenderType::as_is, d);
               c.check(read_graph(g, got, err) && got == want, "dynamic_graph.history render as_is", [&]{ return err + str(got) + " expected " + str(want); });
